@@ -4,6 +4,7 @@ package tx
 import (
 	"bytes"
 	"encoding/json"
+	"fmt"
 	"reflect"
 	"sync"
 
@@ -64,5 +65,19 @@ func HarnessReflectSelectNil() {
 	close(done)
 	verif.Quiesce()
 	verif.Assert(got == 0, "done-chosen")
+	verif.Reach("done")
+}
+
+// HarnessQuoteJSON: a %q-quoted symbolic string inside hand-written JSON.
+func HarnessQuoteJSON() {
+	msg := verif.String("msg", 2)
+	id, _ := json.Marshal(1)
+	var sb bytes.Buffer
+	fmt.Fprintf(&sb, "{\"id\":%s,\"m\":%q}\n", id, "x:"+msg)
+	var out struct {
+		M string `json:"m"`
+	}
+	err := json.Unmarshal(sb.Bytes(), &out)
+	verif.Assert(err == nil && out.M == "x:"+msg, "valid-json")
 	verif.Reach("done")
 }
